@@ -721,7 +721,11 @@ def run_cases(ctx, comp, exe, cases, count=True):
                 key = hashlib.sha1("\n".join(case).encode()).digest()
                 if key not in ctx._seen:
                     ctx._seen.add(key)
-                    if comp.nontrivial(case):
+                    try:
+                        nt = comp.nontrivial(case)
+                    except Exception:       # a predicate that does not expect this case shape must not stop the verdict
+                        nt = False
+                    if nt:
                         ctx.cov["distinct_nontrivial"] += 1
                 if comp.classify:
                     try:
